@@ -340,6 +340,17 @@ func (w *histWorld) Exec(p *Plan, st *RunStats) *Violation {
 				}
 			}
 		}
+		if (w.prop == "C09" || w.prop == "C02") && !skipped && p.Cfg.Mode != "big" && derive(op.ID, 61, 4) == 0 {
+			// the statement names the iterator: it walks the very sequence Keys()/Values() list, in both directions
+			safely(o, op, func() {
+				if bad := walkBothWays(s); bad != "" {
+					o.Fail(w.prop, "iterator-order", "after %s: %s", op, bad)
+				}
+			})
+			if o.Failed() {
+				break
+			}
+		}
 		if st.Ops%8 == 0 && len(st.States) < 64 && !w.bigN {
 			st.States = append(st.States, hashStr(p.Cfg.Kind+s.ModelObs()))
 		}
